@@ -1,15 +1,25 @@
-"""C09 — decoding into a reused object equals decoding into a fresh one (DESIGN.md §4 C09): TL1 histories for every schema, mixed TL1/TL2/JSON/Reset histories for schemas with TL2 code."""
+"""C09 — decoding into a reused object equals decoding into a fresh one (DESIGN.md §4 C09).
+
+Proof (TL1): lean/TLVerif/Codec/Reuse.lean is a memory-level model of the generated readers (storage of masked-out fields,
+stale union variants, slice elements between len and cap, dirty state after a failed read, nil pointers);
+Props/C09.lean proves that the observation of a read into ANY old object is the fresh read, for every descriptor.
+Tie: the model driver threads ONE such object through every history (codec.seq / codec.reset / the TL1 and Reset steps of
+codec.seqx), the harness does the same with ONE generated Go object.  TL2 and JSON steps are tie-only."""
 from checks import codec_common as cc
 from vlib.core import hx
 
-LEVEL = "translation_validation"
-MODULES = []
-THEOREMS = []
+LEVEL = "proof"
+MODULES = ["TLVerif.Props.C09"]
+THEOREMS = ["TLVerif.Props.C09." + t for t in [
+    "read_into_any_eq_fresh", "read_into_any_eq_fresh_except", "history_independent", "history_last", "reset_eq_fresh",
+    "fresh_shaped", "reset_shaped", "read_into_shaped", "history_shaped", "dirty_example",
+    "struct_else_branch_resets", "struct_reset_resets", "vector_reslices", "dict_cleared", "union_index_assigned"]]
+SOURCES = ["TLVerif.Codec.Reuse", "TLVerif.Codec.ReuseLemmas", "TLVerif.Codec.Ops.Misc", "TLVerif.Codec.Ops.Reuse"]
 
 
 def run(c):
-    if MODULES:
-        c.lean(MODULES, THEOREMS)
+    c.facts(["Reuse"])
+    c.lean(MODULES, THEOREMS, sources=SOURCES)
     model, hcodec, schemas = cc.prepare(c)
     rng = c.rng
     for sc in schemas:
@@ -109,4 +119,10 @@ def run(c):
                 for src, part in single[l]:
                     if part != a:
                         c.oracle_fail(src, "decoding into a reused object differs from decoding into a fresh one (step %s: reused %s, fresh %s)" % (l.split(" ")[4][:50], part[:70], a[:70]), src)
-    c.extra["rule"] = "histories of 2–6 decodes (valid, truncated, mutated) into one object per factory item; Reset after a decode; fresh-object baseline"
+    c.extra["rule"] = ("histories of 2–6 decodes (valid, truncated, mutated inputs) into ONE object per factory item and bare/boxed form, "
+                       "Reset after a decode, mixed TL1/TL2/JSON/Reset histories for schemas with TL2 code; the model side threads one "
+                       "Reuse.Mem object through the same history (readInto/resetMem, printed through abs); oracle on the implementation: "
+                       "every step equals the same input decoded into a fresh object, Reset equals a fresh object; a case is one history line")
+    c.trusted += ["ghost presence flag of a struct field in Reuse.Mem (outcome of the last mask test; Go recomputes it from the stored # values)"]
+    c.assumptions += ["TL2 and JSON readers have no memory-level model: their steps in mixed histories are tie-only",
+                      "bytes-version (slice-backed) dictionaries are not exercised by the harness; the model has map dictionaries only"]
